@@ -158,7 +158,7 @@ pub fn run_block_c17(verif_seed: u64, block: u64, n_runs: usize, opts: &BlockOpt
         let g = gen_run(seed, Mode::C17);
         let r = run_spec(&g.spec, Prop::C17, &RunOpts::default());
         if opts.log {
-            println!("RUN {} {:016x} {:016x} {:016x} {}", run, g.spec.workload_hash(), r.trace_hash(), r.outcome_hash(), r.compared);
+            println!("RUN {} {:016x} {:016x} {:016x} {}{}", run, g.spec.workload_hash(), r.trace_hash(), r.outcome_hash(), r.compared, if r.lost_control { " LOST-CONTROL" } else { "" });
         }
         absorb(&mut sum, &g.spec, &r, &mut nt, &mut tr);
         if sum.samples.len() < opts.samples && nontrivial(&g.spec, &r) {
@@ -365,7 +365,7 @@ pub fn run_block_c18(verif_seed: u64, block: u64, n_bases: usize, opts: &BlockOp
 
     let mut record = |sum: &mut BlockSummary, spec: &RunSpec, r: &RunResult, run: u64, variant: &str, seed: u64, nt: &mut BTreeSet<u64>, tr: &mut BTreeSet<u64>| -> bool {
         if opts.log {
-            println!("RUN {} {} {:016x} {:016x} {:016x} {}", run, variant, spec.workload_hash(), r.trace_hash(), r.outcome_hash(), r.compared);
+            println!("RUN {} {} {:016x} {:016x} {:016x} {}{}", run, variant, spec.workload_hash(), r.trace_hash(), r.outcome_hash(), r.compared, if r.lost_control { " LOST-CONTROL" } else { "" });
         }
         absorb(sum, spec, r, nt, tr);
         if sum.samples.len() < opts.samples && nontrivial(spec, r) && (variant != "base" || sum.samples.is_empty()) {
